@@ -664,5 +664,21 @@ Section EnumOracle.
     | Some m => ASat lit St EM m
     | None => AUnsat lit St EM (q_sel lit q)
     end.
+
+  (** an executable test of the oracle hypothesis ([truthful] of Proofs/PdrImplProofs.v) for ONE
+      recorded answer: a model must satisfy the query; "unsat" must be right for the query restricted
+      to the literals the core selects.  The driver applies it to the answers of the real solver. *)
+  Variable lit_eqb : lit -> lit -> bool.
+  Definition restrict_q (q : query lit) (core : list lit) : query lit :=
+    {| q_kind := q_kind lit q; q_frame := q_frame lit q; q_from := q_from lit q; q_bad := q_bad lit q;
+       q_neg := q_neg lit q; q_fixed := q_fixed lit q;
+       q_sel := filter (fun l => existsb (lit_eqb l) core) (q_sel lit q); q_core := q_core lit q |}.
+  Definition answer_ok (q : query lit) (a : answer lit St EM) : bool :=
+    match a with
+    | ASat _ _ _ m => enum_ok q m
+    | AUnsat _ _ _ core => negb (existsb (enum_ok (if q_core lit q then restrict_q q core else q)) states)
+    | AUnknown _ _ _ => true
+    | AErr _ _ _ _ => true
+    end.
 End EnumOracle.
 
